@@ -18,9 +18,17 @@ pub mod c17;
 pub mod c18;
 pub mod c19;
 pub mod c20;
+pub mod regress;
 
 use crate::engine::Property;
 
 pub fn all() -> Vec<Property> {
-    vec![c01::property(), c02::property(), c03::property(), c04::property(), c05::property(), c06::property(), c07::property(), c08::property(), c09::property(), c10::property(), c11::property(), c12::property(), c13::property(), c14::property(), c15::property(), c16::property(), c17::property(), c18::property(), c19::property(), c20::property()]
+    let mut v = vec![c01::property(), c02::property(), c03::property(), c04::property(), c05::property(), c06::property(), c07::property(), c08::property(), c09::property(), c10::property(), c11::property(), c12::property(), c13::property(), c14::property(), c15::property(), c16::property(), c17::property(), c18::property(), c19::property(), c20::property()];
+    // replay tier: the concrete inputs of repaired defects run first
+    for p in v.iter_mut() {
+        if let Some(sec) = regress::section(p.id) {
+            p.sections.insert(0, sec);
+        }
+    }
+    v
 }
